@@ -275,23 +275,50 @@ def distribution_rules(repo, rep, prefix):
     if scale is None or loc is None:
       rep.violation(prefix + 'R5/posterior-shape', f.qualname, norm(call)[:100], 'the posterior is built without loc/scale', f.loc(call))
       continue
-    sbase = scale.value if isinstance(scale, ast.Subscript) else scale
-    lbase = loc.value if isinstance(loc, ast.Subscript) else loc
-    if isinstance(scale, ast.Subscript) != isinstance(loc, ast.Subscript) or (isinstance(scale, ast.Subscript) and norm(scale.slice) != norm(loc.slice)):
+    def bases(at, e, depth=6):
+      """[(base expression, node, index text or None)]: the array(s) the argument is taken from, looking through
+      `x = x[time]` re-bindings and names with several definitions."""
+      if depth <= 0:
+        return [(e, at, None)]
+      if isinstance(e, ast.Subscript):
+        return [(b, n_, norm(e.slice) if ix is None else ix) for b, n_, ix in bases(at, e.value, depth - 1)]
+      if isinstance(e, ast.Name):
+        ds = rd.defs_at(at, e.id)
+        if ds and all(d.how == 'assign' and d.value is not None for d in ds) and (len(ds) > 1 or isinstance(next(iter(ds)).value, (ast.Subscript, ast.Name))):
+          out = []
+          for d in sorted(ds, key=lambda d_: d_.node.id):
+            out += bases(d.node, d.value, depth - 1)
+          return out
+      return [(e, at, None)]
+    sb, lb = bases(r, scale), bases(r, loc)
+    s_idx = {ix for _, _, ix in sb}
+    l_idx = {ix for _, _, ix in lb}
+    if s_idx != l_idx:
       rep.violation(prefix + 'R5/posterior-shape', f.qualname, norm(call)[:100], 'loc and scale are taken at different time indices', f.loc(call))
-    rep.check(nonneg(ctx, r, sbase), prefix + 'R4/scale-sign', 'the scale passed to scipy.stats.t is non-negative for every rescale factor', f.qualname,
-              'scale=%s' % norm(rd.expand(r, sbase, keep=('rescale',))[0])[:120],
-              'the scale of the posterior `%s` can be negative (e.g. rescale < 0): scipy then returns NaN for every quantile and probability'
-              % norm(rd.expand(r, sbase, keep=('rescale',))[0])[:100], f.loc(call))
-    st = norm(rd.expand(r, sbase, keep=('rescale', 'one_to_t', 'var_params', 'causal_response'))[0])
-    ok_scale = re.fullmatch(r'(np\.abs|abs)\(rescale\) \* np\.sqrt\(var_params \* one_to_t \*\* 2 \+ one_to_t \* self\.pre_period_model\.scale\)\.flatten\(\)', st) is not None or \
-        re.fullmatch(r'(np\.abs|abs)\(rescale\) \* np\.sqrt\(one_to_t \*\* 2 \* var_params \+ one_to_t \* self\.pre_period_model\.scale\)\.flatten\(\)', st) is not None
-    rep.check(ok_scale, prefix + 'R5/posterior-shape', 'variance = t^2 * (parameter variance) + t * sigma^2, scaled by |rescale|', f.qualname, 'scale = ' + st[:160],
-              'the posterior scale `%s` is not |rescale| * sqrt(t^2 * Q(t) + t * sigma^2) (Kerman 2017, eq. 5)' % st[:140], f.loc(call))
-    lt = norm(rd.expand(r, lbase, keep=('rescale', 'causal_response'))[0])
-    rep.check(lt == 'rescale * np.array(np.cumsum(causal_response)).flatten()', prefix + 'R5/posterior-shape', 'location = rescale * cumulative causal effect', f.qualname,
-              'loc = ' + lt[:120], 'the posterior location `%s` is not rescale * cumsum(causal effect)' % lt[:100], f.loc(call))
-  rep.floor('frozen t distributions returned', n_t, 2)
+    seen_b = set()
+    for sbase, snode, _ in sb:
+      key_ = norm(rd.expand(snode, sbase, keep=('rescale', 'one_to_t', 'var_params', 'causal_response'))[0])
+      if key_ in seen_b:
+        continue
+      seen_b.add(key_)
+      rep.check(nonneg(ctx, snode, sbase), prefix + 'R4/scale-sign', 'the scale passed to scipy.stats.t is non-negative for every rescale factor', f.qualname,
+                'scale=%s' % norm(rd.expand(snode, sbase, keep=('rescale',))[0])[:120],
+                'the scale of the posterior `%s` can be negative (e.g. rescale < 0): scipy then returns NaN for every quantile and probability'
+                % norm(rd.expand(snode, sbase, keep=('rescale',))[0])[:100], f.loc(call))
+      st = key_
+      ok_scale = re.fullmatch(r'(np\.abs|abs)\(rescale\) \* np\.sqrt\(var_params \* one_to_t \*\* 2 \+ one_to_t \* self\.pre_period_model\.scale\)\.flatten\(\)', st) is not None or \
+          re.fullmatch(r'(np\.abs|abs)\(rescale\) \* np\.sqrt\(one_to_t \*\* 2 \* var_params \+ one_to_t \* self\.pre_period_model\.scale\)\.flatten\(\)', st) is not None
+      rep.check(ok_scale, prefix + 'R5/posterior-shape', 'variance = t^2 * (parameter variance) + t * sigma^2, scaled by |rescale|', f.qualname, 'scale = ' + st[:160],
+                'the posterior scale `%s` is not |rescale| * sqrt(t^2 * Q(t) + t * sigma^2) (Kerman 2017, eq. 5)' % st[:140], f.loc(call))
+    seen_b = set()
+    for lbase, lnode, _ in lb:
+      lt = norm(rd.expand(lnode, lbase, keep=('rescale', 'causal_response'))[0])
+      if lt in seen_b:
+        continue
+      seen_b.add(lt)
+      rep.check(lt == 'rescale * np.array(np.cumsum(causal_response)).flatten()', prefix + 'R5/posterior-shape', 'location = rescale * cumulative causal effect', f.qualname,
+                'loc = ' + lt[:120], 'the posterior location `%s` is not rescale * cumsum(causal effect)' % lt[:100], f.loc(call))
+  rep.floor('frozen t distributions returned', n_t, 1)
   # pieces: one_to_t, var_params (quadratic form of the cumulative mean regressor), causal_response
   def single(name):
     for n in g.nodes:
